@@ -11,6 +11,7 @@ target) — on metrically consistent networks with weight factor ≤ 1 that is w
 estimate provides; Dijkstra (`h = 0`) needs nothing.
 -/
 import Compass.Proofs.SearchOpt
+import Compass.Proofs.SearchRoute
 
 namespace Compass
 namespace C02
@@ -62,6 +63,45 @@ theorem tree_labels_least_cost {I : Inst α} {ok : Nat → Bool} {c : Nat → α
     (hrun : runAStar I source none sched = .ok s) (v : Nat) (x : α) (hx : s.g v = some x) :
     (∃ es, Walk I ok source es v ∧ cost c es = x) ∧ ∀ es, Walk I ok source es v → x ≤ cost c es :=
   tree_labels_optimal U hrun v x hx
+
+
+/-- The property itself: the summed cost of the route A* returns equals the destination label,
+equals the cost of the route as a walk, and is the minimum over all valid origin–destination walks. -/
+theorem astar_route_least_cost {I : Inst α} {ok : Nat → Bool} {c hv : Nat → α}
+    (U : Uniform I ok c hv) {source t : Nat} (hts : t ≠ source) (hadm : Admissible I ok c hv t)
+    {sched : List Nat} {res : SearchResult α}
+    (h : runVertexOriented I source (some t) sched = .ok res) :
+    ∃ route d, res.route = some route ∧ route ≠ [] ∧
+      Walk I ok source (route.map (·.edge)) t ∧
+      (route.map (fun b => b.access + b.traversal)).sum = cost c (route.map (·.edge)) ∧
+      res.final.g t = some d ∧
+      (route.map (fun b => b.access + b.traversal)).sum = d ∧
+      ∀ es, Walk I ok source es t → (route.map (fun b => b.access + b.traversal)).sum ≤ cost c es :=
+  SearchRoute.route_optimal U hts hadm h
+
+/-- Dijkstra: the same on every network, no premise on the heuristic. -/
+theorem dijkstra_route_least_cost {I : Inst α} {ok : Nat → Bool} {c : Nat → α}
+    (U : UniformCost I ok c) (h0 : ∀ v st, I.h v st = .ok 0) {source t : Nat} (hts : t ≠ source)
+    {sched : List Nat} {res : SearchResult α}
+    (h : runVertexOriented I source (some t) sched = .ok res) :
+    ∃ route d, res.route = some route ∧ route ≠ [] ∧
+      Walk I ok source (route.map (·.edge)) t ∧
+      (route.map (fun b => b.access + b.traversal)).sum = cost c (route.map (·.edge)) ∧
+      res.final.g t = some d ∧
+      (route.map (fun b => b.access + b.traversal)).sum = d ∧
+      ∀ es, Walk I ok source es t → (route.map (fun b => b.access + b.traversal)).sum ≤ cost c es :=
+  SearchRoute.dijkstra_route_optimal U h0 hts h
+
+/-- Dijkstra and A* report the same route cost, whatever schedules they take. -/
+theorem astar_route_cost_eq_dijkstra {I : Inst α} {ok : Nat → Bool} {c hv : Nat → α}
+    (U : Uniform I ok c hv) {source t : Nat} (hts : t ≠ source) (hadm : Admissible I ok c hv t)
+    {sched sched' : List Nat} {res res' : SearchResult α}
+    (h : runVertexOriented I source (some t) sched = .ok res)
+    (h' : runVertexOriented { I with h := fun _ _ => .ok 0 } source (some t) sched' = .ok res') :
+    ∃ route route', res.route = some route ∧ res'.route = some route' ∧
+      (route.map (fun b => b.access + b.traversal)).sum
+        = (route'.map (fun b => b.access + b.traversal)).sum :=
+  SearchRoute.astar_route_cost_eq_dijkstra_route_cost U hts hadm h h'
 
 /-! ### Non-vacuity: an instance with a forbidden shortcut, a cycle and a non-zero, inconsistent but
 admissible heuristic meets every premise, and the theorem applies to an actual run. -/
